@@ -1,6 +1,7 @@
 package main
 
 import (
+	"time"
 	"strconv"
 	"bytes"
 	"os"
@@ -110,6 +111,12 @@ func runC18(idx int, rng *rand.Rand, tier string) []Case {
 	}
 	if idx%40 == 11 {
 		return c18Resolvers(rng)
+	}
+	if idx%40 == 15 {
+		return c18ResolversCLI(idx, rng)
+	}
+	if idx%40 == 19 {
+		return c18TTLFollows(idx, rng)
 	}
 	if idx%2 == 1 {
 		return c18ConnectCases(idx, rng, tier)
@@ -382,5 +389,144 @@ func c18Resolvers(rng *rand.Rand) []Case {
 	c.Tag = "resolvers;nt"
 	c.Dist = fmt.Sprintf("resolvers/k%d", k)
 	c.Sample = map[string]interface{}{"resolvers": k, "dials": n}
+	return []Case{c}
+}
+
+// several name servers, each counting the queries it gets (all answer from the same records)
+var dnsExtra struct {
+	once  sync.Once
+	addrs []string
+	cnt   []int64
+}
+
+func startExtraDNS() {
+	for i := 0; i < 3; i++ {
+		pc, err := net.ListenPacket("udp", "127.0.0.1:0")
+		if err != nil {
+			panic(err)
+		}
+		i := i
+		dnsExtra.addrs = append(dnsExtra.addrs, pc.LocalAddr().String())
+		dnsExtra.cnt = append(dnsExtra.cnt, 0)
+		h := dns.HandlerFunc(func(w dns.ResponseWriter, r *dns.Msg) {
+			atomic.AddInt64(&dnsExtra.cnt[i], 1)
+			m := new(dns.Msg)
+			m.SetReply(r)
+			m.Authoritative = true
+			for _, q := range r.Question {
+				if q.Qtype == dns.TypeA {
+					m.Answer = append(m.Answer, &dns.A{Hdr: dns.RR_Header{Name: q.Name, Rrtype: dns.TypeA, Class: dns.ClassINET, Ttl: 60}, A: net.IPv4(127, 0, 0, 1)})
+				}
+			}
+			w.WriteMsg(m)
+		})
+		go (&dns.Server{PacketConn: pc, Handler: h}).ActivateAndServe()
+	}
+}
+
+var dnsExtraMu sync.Mutex
+
+// the attack command with two or three -resolvers and caching off: the lookups of its
+// connections must be spread over all of them (rotation through the resolver's dial function)
+func c18ResolversCLI(idx int, rng *rand.Rand) []Case {
+	dnsExtra.once.Do(startExtraDNS)
+	dnsExtraMu.Lock() // the counters are shared: one such case at a time
+	defer dnsExtraMu.Unlock()
+	srv := httptest.NewServer(http.HandlerFunc(func(w http.ResponseWriter, r *http.Request) { w.Write([]byte("ok")) }))
+	defer srv.Close()
+	_, port, _ := net.SplitHostPort(strings.TrimPrefix(srv.URL, "http://"))
+	k := 2 + rng.Intn(2)
+	before := make([]int64, k)
+	for i := 0; i < k; i++ {
+		before[i] = atomic.LoadInt64(&dnsExtra.cnt[i])
+	}
+	out := filepath.Join(scratchDir(), fmt.Sprintf("c18res%d.bin", idx))
+	defer os.Remove(out)
+	args := []string{"attack", "-rate", "60", "-duration", "500ms", "-keepalive=false", "-dns-ttl=-1", "-timeout", "10s", "-output", out,
+		"-resolvers", strings.Join(dnsExtra.addrs[:k], ",")}
+	cmd := exec.Command(os.Getenv("VERIF_VEGETA"), args...)
+	cmd.Stdin = strings.NewReader(fmt.Sprintf("GET http://c18res%d.verif.test:%s/\n", idx, port))
+	runErr := cmd.Run()
+	b, _ := os.ReadFile(out)
+	rs, _ := decodeAll(vegeta.NewDecoder(bytes.NewReader(b)), 1<<20)
+	okc := 0
+	for _, r := range rs {
+		if r.Code == 200 && r.Error == "" {
+			okc++
+		}
+	}
+	var c Case
+	w := &c.W
+	w.Z(5)
+	w.Bool(runErr == nil)
+	w.I(len(rs)); w.I(okc)
+	w.I(k)
+	var got []int64
+	for i := 0; i < k; i++ {
+		got = append(got, atomic.LoadInt64(&dnsExtra.cnt[i])-before[i])
+		w.Z(got[i])
+	}
+	c.Tag = "cli.resolvers;nt"
+	c.Dist = fmt.Sprintf("cli/resolvers%d", k)
+	c.Sample = map[string]interface{}{"args": args, "results": len(rs), "ok": okc, "queries_per_resolver": got}
+	return []Case{c}
+}
+
+// a positive DNS TTL: the cache is refreshed every TTL, so when the host's address changes the
+// dials follow within a few TTLs (the name is kept in use all the time)
+func c18TTLFollows(idx int, rng *rand.Rand) []Case {
+	name := fmt.Sprintf("c18ttl%d.verif.test", idx)
+	a1, a2 := net.IPv4(10, 77, byte(idx%250), 1), net.IPv4(10, 77, byte(idx%250), 2)
+	dnsSrv.mu.Lock()
+	dnsSrv.recs[name] = []net.IP{a1}
+	dnsSrv.mu.Unlock()
+	rec := &recorder{calls: map[int][]string{}}
+	tr := &http.Transport{DialContext: rec.dial}
+	ttl := time.Duration(40+rng.Intn(30)) * time.Millisecond
+	atk := vegeta.NewAttacker(vegeta.Client(&http.Client{Transport: tr}), vegeta.DNSCaching(ttl))
+	defer atk.Stop()
+	n := 0
+	dial := func() string {
+		ctx := context.WithValue(context.Background(), dialKey{}, n)
+		tr.DialContext(ctx, "tcp", name+":80")
+		rec.mu.Lock()
+		defer rec.mu.Unlock()
+		as := rec.calls[n]
+		n++
+		if len(as) == 1 {
+			return as[0]
+		}
+		return fmt.Sprint(as)
+	}
+	first := dial()
+	for t := 0; t < 5; t++ { // keep the name in use while the first refreshes happen
+		time.Sleep(25 * time.Millisecond)
+		dial()
+	}
+	dnsSrv.mu.Lock()
+	dnsSrv.recs[name] = []net.IP{a2}
+	dnsSrv.mu.Unlock()
+	for t := 0; t < 16; t++ { // 400 ms: more than five TTLs
+		time.Sleep(25 * time.Millisecond)
+		dial()
+	}
+	last := dial()
+	id := func(a string) int64 {
+		switch a {
+		case net.JoinHostPort(a1.String(), "80"):
+			return 0
+		case net.JoinHostPort(a2.String(), "80"):
+			return 1
+		}
+		return -1
+	}
+	var c Case
+	w := &c.W
+	w.Z(6)
+	w.Z(int64(ttl))
+	w.Z(id(first)); w.Z(id(last))
+	c.Tag = "dns.ttl;nt"
+	c.Dist = "dns/ttl follows"
+	c.Sample = map[string]interface{}{"ttl": ttl.String(), "first_dial": first, "last_dial": last}
 	return []Case{c}
 }
